@@ -199,12 +199,12 @@ class Continuous(AgentSchedulingComponent):
 
         while len(slots) < n_slots:
 
+            node_idx  = node['index']
+            node_name = node['name']
+
             # lfs and mem are finite, too
             if lfs_per_slot > lfs_avail or mem_per_slot > mem_avail:
                 break
-
-            node_idx  = node['index']
-            node_name = node['name']
 
             self._log.debug_9('find resources on %s:%d', node_name, node_idx)
             self._log.debug_9('node: %s', pprint.pformat(node))
